@@ -352,4 +352,99 @@ example :
         nxt := Sched.next } exHeap 1 [] 20).heap.toList = [7, 65 / 16, -3] := by decide +kernel
 
 end
+/-! ### what holds in any arithmetic (and therefore for the `Float` instantiation of the model)
+
+The theorems above use exact field arithmetic.  The statements of this section use no property of
+the arithmetic at all. -/
+
+section anyArith
+variable {K S σ : Type} [Add K] [Sub K] [Mul K] [Div K] [Neg K] [NatCast K] [IntCast K]
+variable [LT K] [DecidableLT K] [LE K] [DecidableLE K] [HasFloor K]
+
+theorem stepN_autonomous (step : S → K → S) (g : S → S) (hg : ∀ u t, step u t = g u) (dt tS : K) :
+    ∀ (n i : Nat) (u : S), stepN step dt tS n i u = Nat.iterate g n u
+  | 0, _, _ => rfl
+  | n + 1, i, u => by
+    show stepN step dt tS n (i + 1) (step u _) = Nat.iterate g n (g u)
+    rw [stepN_autonomous step g hg dt tS n (i + 1), hg]
+
+theorem iterate_add' (g : S → S) : ∀ (m n : Nat) (u : S), Nat.iterate g n (Nat.iterate g m u) = Nat.iterate g (m + n) u
+  | 0, n, u => by rw [Nat.zero_add]; rfl
+  | m + 1, n, u => by
+    show Nat.iterate g n (Nat.iterate g m (g u)) = _
+    rw [iterate_add' g m n (g u), Nat.add_right_comm]; rfl
+
+theorem iterOnce_autonomous (c : Cfg K S σ) (g : S → S) (hg : ∀ u t, c.step u t = g u) (u0 : S)
+    (st : LState K S σ) (h : st.u = Nat.iterate g st.steps u0) :
+    (iterOnce c st).1.u = Nat.iterate g (iterOnce c st).1.steps u0 := by
+  unfold iterOnce
+  split
+  · dsimp only
+    split
+    · exact h
+    · show stepN c.step c.dt st.t _ 0 st.u = Nat.iterate g (st.steps + _) u0
+      rw [stepN_autonomous c.step g hg, h, iterate_add']
+  · exact h
+
+theorem loop_autonomous (c : Cfg K S σ) (g : S → S) (hg : ∀ u t, c.step u t = g u) (u0 : S) :
+    ∀ (fuel : Nat) (st : LState K S σ), st.u = Nat.iterate g st.steps u0 →
+      (loop c fuel st).1.u = Nat.iterate g (loop c fuel st).1.steps u0
+  | 0, st, h => h
+  | n + 1, st, h => by
+    unfold loop
+    have := iterOnce_autonomous c g hg u0 st h
+    rcases hi : iterOnce c st with ⟨st', o⟩
+    rw [hi] at this
+    cases o with
+    | none => exact loop_autonomous c g hg u0 n st' this
+    | some e => exact this
+
+theorem finalHandle_u_steps (c : Cfg K S σ) (p : LState K S σ × Exit) :
+    (finalHandle c p).1.u = p.1.u ∧ (finalHandle c p).1.steps = p.1.steps := by
+  unfold finalHandle
+  split <;> exact ⟨rfl, rfl⟩
+
+/-- **autonomous_state_any_arithmetic** (what the `Float` instantiation of the model can carry): for an
+autonomous one-step map (`step u t = g u`) the returned state is `g` iterated `steps` times on the
+initial state - in ANY arithmetic: `K` is an arbitrary type with the operation symbols of the model
+and no laws at all (no associativity, no exact rounding, `<` arbitrary), so the statement holds
+literally for the IEEE instantiation `K := Float` that the driver replays against the real code,
+whatever the trackers and their schedules do to the segmentation and to the computed times. -/
+theorem autonomous_state_any_arithmetic (c : Cfg K S σ) (g : S → S) (hg : ∀ u t, c.step u t = g u) (u0 : S)
+    (trs : List (Tracker K S σ)) (fuel : Nat) :
+    (runFuel c u0 trs fuel).state = Nat.iterate g (runFuel c u0 trs fuel).steps u0 := by
+  show (finalHandle c _).1.u = Nat.iterate g (finalHandle c _).1.steps u0
+  rw [(finalHandle_u_steps c _).1, (finalHandle_u_steps c _).2]
+  exact loop_autonomous c g hg u0 fuel _ rfl
+
+
+/-- **autonomous_bit_identical_of_same_steps**: in any arithmetic (in particular IEEE doubles), two
+runs of an autonomous equation observed by arbitrary tracker sets return the identical state as
+soon as they report the same number of steps - the only way observation can perturb the state of an
+autonomous fixed-step simulation is through the step count. -/
+theorem autonomous_bit_identical_of_same_steps (c : Cfg K S σ) (g : S → S) (hg : ∀ u t, c.step u t = g u)
+    (u0 : S) (trs trs' : List (Tracker K S σ)) (fuel fuel' : Nat)
+    (hs : (runFuel c u0 trs fuel).steps = (runFuel c u0 trs' fuel').steps) :
+    (runFuel c u0 trs fuel).state = (runFuel c u0 trs' fuel').state := by
+  rw [autonomous_state_any_arithmetic c g hg, autonomous_state_any_arithmetic c g hg, hs]
+
+end anyArith
+
+/-- the two statements at `K := Float` (IEEE doubles as Lean evaluates them in the driver) -/
+theorem float_autonomous_state {S σ : Type} (c : Cfg Float S σ) (g : S → S) (hg : ∀ u t, c.step u t = g u)
+    (u0 : S) (trs trs' : List (Tracker Float S σ)) (fuel : Nat) :
+    (runFuel c u0 trs fuel).state = Nat.iterate g (runFuel c u0 trs fuel).steps u0 ∧
+      ((runFuel c u0 trs fuel).steps = (runFuel c u0 trs' fuel).steps →
+        (runFuel c u0 trs fuel).state = (runFuel c u0 trs' fuel).state) :=
+  ⟨autonomous_state_any_arithmetic c g hg u0 trs fuel,
+   autonomous_bit_identical_of_same_steps c g hg u0 trs trs' fuel fuel⟩
+
+/-- the hypothesis is satisfiable: explicit Euler for `u' = -u/2`, `dt = 1/4` (the driver's `lin` equation) is
+autonomous with `g u = u + 1/4 * (-1/2 * u)`; concrete run: 4 steps from 1 -/
+example : (∀ (u : Rat) (t : Rat), (fun u (_ : Rat) => u + 1 / 4 * (-1 / 2 * u)) u t = (fun u => u + 1 / 4 * (-1 / 2 * u)) u) ∧
+    (runFuel (K := Rat) (S := Rat) (σ := Sched Rat)
+      { dt := 1 / 4, tStart := 0, tEnd := 1, eps := 1 / 1000000, step := fun u _ => u + 1 / 4 * (-1 / 2 * u),
+        nxt := Sched.next } 1 exTrackers 10).state = Nat.iterate (fun u : Rat => u + 1 / 4 * (-1 / 2 * u)) 4 1 := by
+  refine ⟨fun _ _ => rfl, by decide +kernel⟩
+
 end PdeVerif.Controller
